@@ -829,7 +829,7 @@ class ValueSets:
                 cv = self.eval(ls, vals)
                 if cv is not None and len(cv) == 1:
                     name = next(iter(cv))
-                    num = self.prog.enumconst.get(name, (None, None))[1]
+                    num = 0 if name == "NULL" else (1 if name == "NN" else self.prog.enumconst.get(name, (None, None))[1])
                     if op == "truth" and num == 0:
                         return None
                     if op == "false" and num is not None and num != 0:
@@ -838,6 +838,10 @@ class ValueSets:
                         rs = self.eval(r, vals)
                         if rs is not None and len(rs) == 1:
                             same = (next(iter(rs)) == name)
+                            if (op == "==") != same:
+                                return None
+                        elif r is not None and is_null(r) and num is not None:
+                            same = (num == 0)
                             if (op == "==") != same:
                                 return None
                         elif r is not None and const_val(r) is not None and num is not None:
